@@ -20,8 +20,8 @@
    required d p = sem p (root d) for whole paths (composition through the
    fuelled drivers, list pass-through, searches, `**`).  That statement is
    evaluated on every run by the reference of harness/c01.py against the real
-   code; it is refuted for optional queries (F10) and for descendant searches
-   reaching several nodes (F12a), witnesses below. *)
+   code; it is refuted for descendant searches reaching several nodes (F12a),
+   witness below (the optional-query witness F10 was repaired: fix 09e1e7a). *)
 From Coq Require Import List Ascii String ZArith NArith Bool.
 From YP Require Import Outcome PyStr PyVal Doc Generated PathParser PathPrinter Searches Eval SpecC01 EvalSem
   EvalSemLib EvalSemPath EvalSemTop SpecC01Facts C08Spec.
@@ -76,16 +76,24 @@ Definition doc_f10 : node :=
   NSeq (inf2 0) [NMap (inf2 1) [(leaf2 2 (PStr "a"), leaf2 3 PNone)];
                  NMap (inf2 4) [(leaf2 2 (PStr "a"), NMap (inf2 5) [(leaf2 6 (PStr "b"), leaf2 7 (PInt 1))])]].
 
-(* F10: on an existing path the optional query returns an extra node -- the
-   null intermediate value -- so "optional = required on an existing path"
-   is false. *)
-Theorem C01_optional_on_existing_refuted :
-  match prepare 10 "a.b" with
-  | Ok p => oids (get_required lit2 re2 nstr2 vstr2 kw2 cr2 p doc_f10) = ([7%N], Done) /\
-            oids (get_optional lit2 re2 nstr2 vstr2 kw2 cr2 p doc_f10) = ([3%N; 7%N], Done)
-  | _ => False
+(* The witness of the former C01_optional_on_existing_refuted (F10, repaired by
+   fix 09e1e7a): the optional walk used to stop at the null value of the first
+   `a` and yield it - ([3; 7], Done) for a.b.  It now walks on through the null:
+   a non-creatable continuation selects what the required query selects (the
+   guard [opt_ok] holds, so this is an instance of the theorem below), and a
+   KEY continuation finds the path missing in that branch and builds it beneath
+   the null (the creating query, F16b). *)
+Example C01_optional_walks_through_null :
+  match prepare 10 "a.*", prepare 10 "a.b" with
+  | Ok (PPath segs), Ok p2 =>
+      opt_ok lit2 re2 nstr2 vstr2 kw2 cr2 (fuel_for (PPath segs)) segs 0 (RNode doc_f10) root_ctx = true /\
+      oids (get_required lit2 re2 nstr2 vstr2 kw2 cr2 (PPath segs) doc_f10) = ([7%N], Done) /\
+      oids (get_optional lit2 re2 nstr2 vstr2 kw2 cr2 (PPath segs) doc_f10) = ([7%N], Done) /\
+      oids (get_required lit2 re2 nstr2 vstr2 kw2 cr2 p2 doc_f10) = ([7%N], Done) /\
+      get_optional lit2 re2 nstr2 vstr2 kw2 cr2 p2 doc_f10 = ([], Mut 0 PNone)
+  | _, _ => False
   end.
-Proof. vm_compute. split; reflexivity. Qed.
+Proof. vm_compute. repeat split. Qed.
 
 (* [{a: {x: 2, y: 1}}] : the element HAS a descendant a.* equal to 1, but the
    list loop of _get_nodes_by_search only looks at the first one (F12a). *)
@@ -167,9 +175,10 @@ Proof. exact sem_doc_strict_eq. Qed.
 Print Assumptions C01_guard_is_documented_meaning.
 
 (* an optional-match query on a path that exists in every branch ([opt_ok]:
-   no branch without a match at a segment that could be created -- F16b --, no
-   null node with segments still to go -- F10) is the required query: same
-   stream, hence no node created (a creation ends the stream with Mut) *)
+   no branch without a match at a segment that could be created -- F16b; the
+   second clause, no null node with segments still to go -- F10 --, went with
+   fix 09e1e7a) is the required query: same stream, hence no node created (a
+   creation ends the stream with Mut) *)
 Theorem C01_optional_on_existing_partial :
   forall lit re_search nstr vstr kw_handler creator p segs d,
     p = PPath segs ->
